@@ -7,7 +7,7 @@ import ast
 from ..cfg import build_cfg, calls_in, node_calls
 from ..core import Ctx, property_info, rule, share
 from ..model import AnalysisError, FuncInfo, walk_no_nested
-from ..q import A, asrc, is_self_attr, kwarg, stores, unparse
+from ..q import A, L, X, alternatives, call_name_of, control_deps, dep_texts, expand, expand_at, tests_like, is_self_attr, kwarg, stores, unparse
 from .c10 import flag_liveness_and_overrides
 from .c15 import shape_validation
 
@@ -27,79 +27,148 @@ property_info(
 share("C04", "C04.R4", shape_validation)
 share("C04", "C04.R5", flag_liveness_and_overrides)
 
-JSON_NATIVE = "(dict, int, float, str, bool)"
+JSON_NATIVE = {"dict", "int", "float", "str", "bool", "list"}
+
+
+def _calls_named(node: ast.AST, name: str) -> list[ast.Call]:
+    return [c for c in ast.walk(node) if isinstance(c, ast.Call) and call_name_of(c) == name]
+
+
+def _json_shape(fi: FuncInfo, ret, v: ast.expr, depth: int = 0) -> str | None:
+    """Abstract shape of a returned expression of DictEncoder.encode: a description if JSON-native by construction, else None."""
+    if depth > 4:
+        return None
+    if isinstance(v, ast.Constant) and (v.value is None or isinstance(v.value, (str, int, float, bool))):
+        return "constant"
+    if isinstance(v, (ast.ListComp, ast.GeneratorExp)):
+        return "sequence of " + (_json_shape(fi, ret, v.elt, depth + 1) or "?") if _json_shape(fi, ret, v.elt, depth + 1) else None
+    if isinstance(v, (ast.List, ast.Tuple)):
+        return "sequence" if all(_json_shape(fi, ret, e, depth + 1) for e in v.elts) else None
+    if isinstance(v, ast.Call):
+        f = unparse(v.func)
+        name = call_name_of(v)
+        if name == "encode" and f.startswith(("self.", "cls.")):
+            return "recursive encode"
+        if f == "self.dict_factory":
+            return "dict"
+        if f == "converter.serialize" or f == "str":
+            return "converter string"
+        if f in ("list", "tuple") or f.startswith("type("):
+            # list(map(self.encode, xs)) / list(<generator of encoded items>) / type(value)(<generator>)
+            if len(v.args) == 1:
+                a0 = v.args[0]
+                if isinstance(a0, ast.Call) and call_name_of(a0) == "map" and a0.args and unparse(a0.args[0]) in ("self.encode",):
+                    return "sequence of encoded items"
+                inner = _json_shape(fi, ret, a0, depth + 1)
+                return inner if inner and inner.startswith("sequence") else None
+            return "empty sequence" if not v.args else None
+        return None
+    if isinstance(v, ast.Name):
+        # the value itself: only on paths where an isinstance test against JSON-native types held
+        for txt, pol, t in control_deps(fi, ret):
+            if pol and isinstance(t.ast, ast.Call) and call_name_of(t.ast) == "isinstance" and len(t.ast.args) == 2 and isinstance(t.ast.args[0], ast.Name) and t.ast.args[0].id == v.id:
+                tp = t.ast.args[1]
+                names = {unparse(e) for e in tp.elts} if isinstance(tp, ast.Tuple) else {unparse(tp)}
+                if names <= JSON_NATIVE:
+                    return "json-native value"
+        return None
+    return None
 
 
 @rule("C04.R1")
 def encoder_return_shapes(ctx: Ctx) -> None:
-    """Every return of DictEncoder.encode is None, a list/dict, a recursive encode, a JSON-native value, or a converter string."""
+    """Every value DictEncoder.encode can return is None, a list/dict built here, a recursive encode, a JSON-native value, or a converter string."""
     fi = ctx.repo.func(f"{SER}:DictEncoder.encode")
     g = build_cfg(fi.node)
     rets = g.returns()
     ctx.floor("returns of DictEncoder.encode", len(rets), 8)
     for r in rets:
-        v = r.ast.value
-        txt = unparse(v)
-        kind = None
-        if isinstance(v, ast.Constant) and v.value is None:
-            kind = "None"
-        elif isinstance(v, ast.Call):
-            f = unparse(v.func)
-            if f == "list":
-                kind = "list"
-            elif f == "self.dict_factory":
-                kind = "dict"
-            elif f == "self.encode":
-                kind = "recursive"
-            elif f == "type(value)":
-                kind = "array of encoded items" if any("self.encode" in unparse(a) for a in v.args) else None
-            elif f == "converter.serialize":
-                kind = "converter string" if unparse(kwarg(v, "format") or ast.Constant(0)) == "var.format" else None
-        elif isinstance(v, ast.Name) and v.id == "value":
-            tests = [t for t in g.nodes if t.kind == "test" and isinstance(t.ast, ast.Call) and unparse(t.ast.func) == "isinstance" and unparse(t.ast.args[0]) == "value"
-                     and unparse(t.ast.args[1]) == JSON_NATIVE]
-            kind = "json-native value" if tests and g.only_if(r.id, tests[0].id, True) else None
-        ctx.ob(f"encode returns a JSON-native shape: {txt[:60]}", kind is not None, at=fi, node=r.ast, construct=f"return {txt[:60]}",
-               msg="this return can hand an arbitrary Python object (Enum, Decimal, QName, date ...) to the JSON dumper")
-    # enums are unwrapped to their value before conversion
-    en = [t for t in g.nodes if t.kind == "test" and A(unparse(t.ast)) == A("isinstance(value, Enum)")]
-    rr = [r for r in rets if isinstance(r.ast.value, ast.Call) and unparse(r.ast.value.func) == "self.encode" and unparse(r.ast.value.args[0]) == "value.value"]
-    ctx.ob("enum members are encoded through their value", bool(en) and bool(rr) and g.only_if(rr[0].id, en[0].id, True), at=fi, construct="enum unwrap", msg="enum members reach the dumper")
-    # models are walked through next_value with the configured dict factory
-    md = [r for r in rets if unparse(r.ast.value) == "self.dict_factory(self.next_value(value))"]
-    ctx.ob("models are encoded as dict_factory(next_value(model))", len(md) >= 2, at=fi, construct="model encoding", msg="model encoding changed")
+        for v in alternatives(fi.node, r.ast.value) if r.ast.value is not None else [ast.Constant(value=None)]:
+            kind = _json_shape(fi, r, v)
+            txt = L(fi, v)
+            ctx.ob(f"encode returns a JSON-native shape: {txt[:60]}", kind is not None, at=fi, node=r.ast, construct=f"return {txt[:60]}",
+                   msg="this return can hand an arbitrary Python object (Enum, Decimal, QName, date ...) to the JSON dumper")
+    # enums are unwrapped to their value before conversion: every return that depends on isinstance(value, Enum) re-encodes value.value
+    en = [r for r in rets if any(pol and A("isinstance(_,Enum)") == t for t, pol, _ in control_deps(fi, r))]
+    ok = bool(en) and all(isinstance(v, ast.Call) and call_name_of(v) == "encode" and v.args and L(fi, v.args[0]) == "_.value" for r in en for v in alternatives(fi.node, r.ast.value))
+    ctx.ob("enum members are encoded through their value", ok, at=fi, construct="enum unwrap", msg="enum members reach the dumper")
+    md = [v for r in rets for v in alternatives(fi.node, r.ast.value) if isinstance(v, ast.Call) and unparse(v.func) == "self.dict_factory" and _calls_named(v, "next_value")]
+    ctx.ob("models are encoded as dict_factory(next_value(model))", bool(md), at=fi, construct="model encoding", msg="model encoding changed")
     fn = ctx.repo.func(f"{SER}:filter_none")
-    ctx.ob("filter_none drops exactly the None values", A("return{_:_for_,_in_if_isnotNone}") in asrc(fn), at=fn, construct="filter_none", msg="the None-filtering factory drops or keeps other values")
+    gf = build_cfg(fn.node)
+    conds = [t.ast for t in gf.nodes if t.kind == "test"] + [c for n in walk_no_nested(fn.node) if isinstance(n, ast.comprehension) for c in n.ifs]
+    bad = [c for c in conds if not (isinstance(c, ast.Compare) and len(c.ops) == 1 and isinstance(c.ops[0], (ast.Is, ast.IsNot)) and isinstance(c.comparators[0], ast.Constant) and c.comparators[0].value is None)]
+    ctx.ob("filter_none filters on `is (not) None` only - never on truthiness", bool(conds) and not bad, at=fn, construct="filter_none", msg="the None-filtering factory drops or keeps other values (0, '', False, [] would vanish from the output)")
     js = ctx.repo.func("xsdata.formats.dataclass.serializers.json:JsonSerializer.write")
-    ctx.ob("JsonSerializer.write dumps encode(obj)", A("self.dump_factory(self.encode(_),_,indent=self.config.indent)") in asrc(js), at=js, construct="json dump", msg="json output not the encoded form")
+    dumps = [c for c in calls_in(js.node) if unparse(c.func) == "self.dump_factory"]
+    ok = bool(dumps) and all(c.args and isinstance(expand(js.node, c.args[0]), ast.Call) and call_name_of(expand(js.node, c.args[0])) == "encode" for c in dumps)
+    ctx.ob("JsonSerializer.write dumps encode(obj)", ok, at=js, construct="json dump", msg="json output not the encoded form")
+
+
+def _key_case(fi: FuncInfo, y_node, key: ast.expr) -> str | None:
+    """How a yielded key is chosen: 'wrapper-or-local' when it is var.wrapper exactly if truthy, else var.local_name."""
+    k = expand(fi.node, key)
+    txt = L(fi, k)
+    if txt in (A("_.wrapper or _.local_name"), A("_.wrapper if _.wrapper else _.local_name")):
+        return "both"
+    deps = control_deps(fi, y_node)
+    if txt == "_.wrapper":
+        return "wrapper" if any(t == "_.wrapper" and pol for t, pol, _ in deps) else None
+    if txt == "_.local_name":
+        return "local" if any(t == "_.wrapper" and not pol for t, pol, _ in deps) else None
+    return None
 
 
 @rule("C04.R2")
 def key_agreement(ctx: Ctx) -> None:
     """The names the encoder emits (wrapper, then local_name) are the ones the decoder matches keys against."""
     nv = ctx.repo.func(f"{SER}:DictEncoder.next_value")
-    ys = [y.value for y in walk_no_nested(nv.node) if isinstance(y, ast.Yield) and isinstance(y.value, ast.Tuple)]
-    keys = sorted(unparse(y.elts[0]) for y in ys)
-    ctx.ob("next_value names a value by var.wrapper or else var.local_name", keys == ["var.local_name", "var.wrapper"], at=nv, construct="encoder keys", msg=f"encoder keys are {keys}")
     g = build_cfg(nv.node)
-    wt = [t for t in g.nodes if t.kind == "test" and unparse(t.ast) == "var.wrapper"]
+    ys = [y.value for y in walk_no_nested(nv.node) if isinstance(y, ast.Yield) and isinstance(y.value, ast.Tuple) and len(y.value.elts) == 2]
+    cases = [_key_case(nv, g.node_of(y), y.elts[0]) for y in ys]
+    ok = bool(ys) and None not in cases and (("both" in cases) or {"wrapper", "local"} <= set(cases))
+    ctx.ob("next_value names a value by var.wrapper exactly when the field has one, else by var.local_name", ok, at=nv, construct="encoder keys", msg=f"encoder key cases are {cases}")
     for y in ys:
-        n = g.node_of(y)
-        if unparse(y.elts[0]) == "var.wrapper":
-            ctx.ob("the wrapper key is used exactly when the field has a wrapper", bool(wt) and n is not None and g.only_if(n.id, wt[0].id, True), at=nv, node=y, msg="wrapper key unguarded")
-        ctx.ob(f"the value under {unparse(y.elts[0])} is encode(value, var)", unparse(y.elts[1]) == "self.encode(value, var)", at=nv, node=y, msg="value encoded without its field metadata")
-    ctx.ob("next_value walks meta.get_all_vars() of the object's class", A("for_in_.get_all_vars():") in asrc(nv) and A("_=getattr(_,_.name)") in asrc(nv), at=nv, construct="all vars", msg="a kind of field is not encoded")
+        v = expand(nv.node, y.elts[1])
+        okv = isinstance(v, ast.Call) and call_name_of(v) == "encode" and len(v.args) == 2 and L(nv, v.args[1]) == "_" and "getattr(" in L(nv, v.args[0]) and ".name" in L(nv, v.args[0])
+        ctx.ob("the yielded value is encode(getattr(obj, var.name), var)", okv, at=nv, node=y, construct="encoder value", msg="value encoded without its field metadata")
+    ctx.ob("next_value walks meta.get_all_vars() of the object's class", bool(_calls_named(nv.node, "get_all_vars")), at=nv, construct="all vars", msg="a kind of field is not encoded")
     enc = ctx.repo.func(f"{SER}:DictEncoder.encode")
-    ctx.ob("a wrapped value is nested under var.local_name", A("returnself.dict_factory(((_.local_name,self.encode(_,_,True)),))") in asrc(enc), at=enc, construct="wrapper nesting", msg="wrapper nesting changed")
+    ge = build_cfg(enc.node)
+    nest = []
+    for r in ge.returns():
+        for v in alternatives(enc.node, r.ast.value):
+            if isinstance(v, ast.Call) and unparse(v.func) == "self.dict_factory" and any(isinstance(x, ast.Attribute) and x.attr == "local_name" for x in ast.walk(v)):
+                inner = [c for c in _calls_named(v, "encode") if (len(c.args) == 3 and isinstance(c.args[2], ast.Constant) and c.args[2].value is True)
+                         or any(k.arg == "wrapped" and isinstance(k.value, ast.Constant) and k.value.value is True for k in c.keywords)]
+                deps = control_deps(enc, r)
+                nest.append(bool(inner) and any(t == "_.wrapper" and pol for t, pol, _ in deps) and any(t == "_" and not pol and unparse(tn.ast) == "wrapped" for t, pol, tn in deps))
+    ctx.ob("a wrapped value is nested once under var.local_name (only when the field has a wrapper and the value is not already unwrapped)", nest == [True], at=enc, construct="wrapper nesting", msg="wrapper nesting changed")
+    # decoder side
     fv = ctx.repo.func(f"{PAR}:DictDecoder.find_var")
-    a = asrc(fv)
-    ctx.ob("find_var matches a key against var.local_name, or against var.wrapper with var.local_name nested inside", A("if_.local_name==_:") in a and A("elif_.wrapper==_:") in a and A("ifisinstance(_,dict)and_.local_namein_:") in a
-           and A("_=_[_.local_name]") in a, at=fv, construct="decoder keys", msg="decoder matches other attributes than the encoder emits")
-    ctx.ob("find_var requires list-ness of the value to agree with the field (list_element or tokens)", a.count(A("_=_.list_elementor_.tokens")) >= 2 and a.count(A("if_==_:;return_")) >= 2, at=fv, construct="list agreement",
-           msg="a scalar could be bound to a list field or vice versa")
+    gv = build_cfg(fv.node)
+    rets = [r for r in gv.returns() if r.ast.value is not None and not (isinstance(r.ast.value, ast.Constant) and r.ast.value.value is None)]
+    arity = ("collections.is_array(", "_.list_elementor_.tokens")
+    direct = nested = 0
+    bad = []
+    for r in rets:
+        true_deps = dep_texts(fv, r, True)
+        has_arity = any(t.count("==") == 1 and arity[0] in t and arity[1] in t for t in true_deps)
+        if any(t in ("_.local_name==_", "_==_.local_name") for t in true_deps) and has_arity:
+            direct += 1
+        elif any(t in ("_.wrapper==_", "_==_.wrapper") for t in true_deps) and "isinstance(_,dict)" in true_deps and "_.local_namein_" in true_deps \
+                and any(t.count("==") == 1 and "collections.is_array(_[_.local_name])" in t and arity[1] in t for t in true_deps):
+            nested += 1
+        else:
+            bad.append(sorted(true_deps))
+    ctx.ob("find_var returns a field only for key == var.local_name, or key == var.wrapper with var.local_name nested inside a dict, and only when list-ness of the value agrees with the field",
+           direct >= 1 and nested >= 1 and not bad, at=fv, construct="decoder keys", msg=f"decoder matches other attributes than the encoder emits, or ignores arity: {bad[:1]}")
     bd = ctx.repo.func(f"{PAR}:DictDecoder.bind_dataclass")
-    ctx.ob("bind_dataclass unwraps value[var.local_name] for wrapped fields before binding", A("if_.wrapperand_==_.wrapper:;_=_[_.local_name]") in asrc(bd), at=bd, construct="decoder unwrap", msg="wrapped values bound with their wrapper dict")
-    ctx.ob("bind_dataclass looks keys up in meta.get_all_vars()", A("_=_.get_all_vars()") in asrc(bd), at=bd, construct="decoder vars", msg="decoder consults another var list than the encoder")
+    unwrap = [st for st, tgt, v in stores(bd.node) if isinstance(v, ast.Subscript) and L(bd, v.slice) == "_.local_name"]
+    ok = len(unwrap) == 1 and {"_.wrapper"} <= dep_texts(bd, unwrap[0], True) and bool({"_==_.wrapper", "_.wrapper==_"} & dep_texts(bd, unwrap[0], True))
+    ctx.ob("bind_dataclass unwraps value[var.local_name] exactly for wrapped fields matched by their wrapper key", ok, at=bd, construct="decoder unwrap", msg="wrapped values bound with their wrapper dict")
+    fvc = [c for c in calls_in(bd.node) if call_name_of(c) == "find_var"]
+    ctx.ob("bind_dataclass looks keys up in meta.get_all_vars()", bool(fvc) and all(c.args and X(bd, c.args[0]).endswith(".get_all_vars()") for c in fvc), at=bd, construct="decoder vars", msg="decoder consults another var list than the encoder")
 
 
 @rule("C04.R3")
@@ -108,21 +177,33 @@ def generic_key_sets(ctx: Ctx) -> None:
     ct = ctx.repo.cls("xsdata.formats.dataclass.compat:ClassType")
     for name, attr in (("any_keys", "any_element"), ("derived_keys", "derived_element")):
         m = ct.methods.get(name)
-        ok = m is not None and A(f"return{{_.namefor_inself.get_fields(self.{attr})}}") in asrc(m)
-        ctx.ob(f"ClassType.{name} = field names of self.{attr}", ok, at=m or ct.methods["score_object"], construct=name, msg="a literal key list can drift from the class the encoder walks")
+        ok = False
+        if m is not None:
+            body = [n for n in walk_no_nested(m.node)]
+            lits = [n for n in body if isinstance(n, ast.Constant) and isinstance(n.value, str) and n is not getattr(m.node.body[0], "value", None)]
+            ok = any(isinstance(c, ast.Call) and call_name_of(c) == "get_fields" and c.args and unparse(c.args[0]) == f"self.{attr}" for c in body) and not lits
+        ctx.ob(f"ClassType.{name} is computed from the fields of self.{attr} (no literal key list)", ok, at=m or ct.methods["score_object"], construct=name, msg="a literal key list can drift from the class the encoder walks")
     bv = ctx.repo.func(f"{PAR}:DictDecoder.bind_value")
-    a = asrc(bv)
-    ctx.ob("bind_value recognises generic / derived elements by comparing the key set with class_type.any_keys / derived_keys", A("if_==self.context.class_type.any_keys:") in a and A("if_==self.context.class_type.derived_keys:") in a,
-           at=bv, construct="generic detection", msg="generic detection changed")
+    for keys_attr, target in (("any_keys", "bind_dataclass"), ("derived_keys", "bind_derived_value")):
+        sites = [n for n in build_cfg(bv.node).returns() if isinstance(n.ast.value, ast.Call) and call_name_of(n.ast.value) == target]
+        ok = bool(sites) and all(any(pol and t.endswith(f"self.context.class_type.{keys_attr}") and ".keys()" in t and "==" in t for t, pol, _ in control_deps(bv, n)) for n in sites)
+        ctx.ob(f"bind_value sends a dict to {target} exactly when its key set equals class_type.{keys_attr}", ok, at=bv, construct=f"generic detection {keys_attr}", msg="generic detection changed")
     bd = ctx.repo.func(f"{PAR}:DictDecoder.bind_dataclass")
-    ctx.ob("bind_dataclass recognises a derived wrapper by its exact key set", A("ifset(_.keys())==self.context.class_type.derived_keys:") in asrc(bd), at=bd, construct="derived detection", msg="derived detection changed")
+    sites = [n for n in build_cfg(bd.node).returns() if isinstance(n.ast.value, ast.Call) and call_name_of(n.ast.value) == "bind_derived_dataclass"]
+    ok = bool(sites) and all(any(pol and t.endswith("self.context.class_type.derived_keys") and ".keys()" in t and "==" in t for t, pol, _ in control_deps(bd, n)) for n in sites)
+    ctx.ob("bind_dataclass recognises a derived wrapper by its exact key set", ok, at=bd, construct="derived detection", msg="derived detection changed")
     for q in (f"{PAR}:DictDecoder.bind_derived_value", f"{PAR}:DictDecoder.bind_derived_dataclass"):
         fi = ctx.repo.func(q)
-        a = asrc(fi)
-        ok = all(A(f"_=_['{k}']") in a for k in ("qname", "type", "value"))
-        gen = [c for c in calls_in(fi.node) if isinstance(c.func, ast.Name) and c.func.id == "generic"]
+        read = {n.slice.value for n in walk_no_nested(fi.node) if isinstance(n, ast.Subscript) and isinstance(n.ctx, ast.Load) and isinstance(n.slice, ast.Constant) and isinstance(n.slice.value, str) and unparse(n.value) == "data"}
+        ders = names_from_attr(fi.node, "derived_element")
+        gen = [c for c in calls_in(fi.node) if isinstance(c.func, ast.Name) and c.func.id in ders or unparse(c.func).endswith(".derived_element")]
         kws = {k.arg for c in gen for k in c.keywords}
-        ctx.ob(f"{q.split(':')[1]} reads and rebuilds exactly the DerivedElement fields", ok and kws == {"qname", "type", "value"}, at=fi, construct="derived fields", msg=f"keywords {sorted(kws)}")
+        ctx.ob(f"{q.split(':')[1]} reads and rebuilds exactly the DerivedElement fields", read == {"qname", "type", "value"} and kws == {"qname", "type", "value"}, at=fi, construct="derived fields", msg=f"reads {sorted(read)}, keywords {sorted(kws)}")
+
+
+def names_from_attr(fn: ast.AST, attr: str) -> set[str]:
+    """Locals assigned from an expression ending in ``.attr``."""
+    return {tgt.id for _, tgt, v in stores(fn) if isinstance(tgt, ast.Name) and isinstance(v, ast.Attribute) and v.attr == attr}
 
 
 @rule("C04.R6")
@@ -132,21 +213,40 @@ def exact_type_choice_lookup(ctx: Ctx) -> None:
     bad = [c for c in calls_in(fp.node) if isinstance(c.func, ast.Name) and c.func.id in ("isinstance", "issubclass")]
     ctx.ob("find_primitive_choice uses no isinstance / issubclass (bool is an int, an IntEnum is an int ...)", not bad, at=fp, node=bad[0] if bad else None, construct="primitive exact type",
            msg="a bool value matches an int choice declared first: JSON true decodes as the string 'true' with a warning instead of True")
-    a = asrc(fp)
-    ctx.ob("find_primitive_choice matches type(value) (or of the first token) against element.types exactly", A("_=type(_)ifnot_elsetype(_[0])") in a and A("if_in_.types:;return_") in a, at=fp,
-           construct="primitive type membership", msg="exact type shortcut changed")
-    ctx.ob("find_primitive_choice skips any-type / model / token-mismatched choices and falls back to converter.test", A("if(_.any_typeor_.clazz)or_.tokens!=_:;continue") in a and "converter.test(" in a, at=fp,
+    g = build_cfg(fp.node)
+    rets = [r for r in g.returns() if r.ast.value is not None and not (isinstance(r.ast.value, ast.Constant) and r.ast.value.value is None)]
+    def _membership(fi, t):
+        """(left alternatives, comparator text) of an `x in y` test with temporaries expanded at the test."""
+        e = expand_at(fi, t, t.ast)
+        if isinstance(e, ast.Compare) and len(e.ops) == 1 and isinstance(e.ops[0], ast.In):
+            return alternatives(ast.Module(body=[], type_ignores=[]), e.left), L(fi, e.comparators[0])
+        return None
+
+    member = [(t, _membership(fp, t)) for t in g.nodes if t.kind == "test"]
+    exact = [t for t, m in member if m is not None and m[1] == "_.types" and all(isinstance(v, ast.Call) and call_name_of(v) == "type" for v in m[0])]
+    ok = bool(exact) and any(g.only_if(r.id, t.id, True) for r in rets for t in exact)
+    ctx.ob("find_primitive_choice returns a choice when type(value) (or of the first token) is a member of element.types", ok, at=fp, construct="primitive type membership", msg="exact type shortcut changed")
+    skip_ok = bool(rets) and all({"_.any_type", "_.clazz"} <= dep_texts(fp, r, False) for r in rets)
+    tok_ok = bool(rets) and all(any(("_.tokens" in t and "!=" in t and not pol) or ("_.tokens" in t and "==" in t and "!=" not in t and pol) for t, pol, _ in control_deps(fp, r)) for r in rets)
+    ctx.ob("find_primitive_choice skips any-type / model / token-mismatched choices and falls back to converter.test", skip_ok and tok_ok and bool(_calls_named(fp.node, "test")), at=fp,
            construct="primitive fallback", msg="choice filtering changed")
     fc = ctx.repo.func(f"{EL}:XmlVar.find_clazz_choice")
-    a = asrc(fc)
-    ctx.ob("find_clazz_choice prefers the exact class and only then the first choice the class derives from", A("if_in_.types:;return_") in a and A("if_isNoneandany((issubclass(_,_)for_in_.types)):;_=_") in a and a.rstrip().endswith("return_"),
-           at=fc, construct="clazz choice", msg="a subclass instance could be bound to a base-class choice although its own class is a choice")
+    g = build_cfg(fc.node)
+    sub_t = [t for t in g.nodes if t.kind == "test" and any(isinstance(c, ast.Call) and call_name_of(c) == "issubclass" for c in ast.walk(t.ast))]
+    ex_t = [t for t in g.nodes if t.kind == "test" and (m := _membership(fc, t)) is not None and m[1] == "_.types"]
+    rets = [r for r in g.returns()]
+    early = [r for r in rets if any(g.only_if(r.id, t.id, True) for t in sub_t)]
+    ok = bool(ex_t) and any(g.only_if(r.id, t.id, True) for r in rets for t in ex_t) and not early
+    ctx.ob("find_clazz_choice returns at once only on an exact class match; a choice the class merely derives from is remembered and returned after all choices were seen", ok, at=fc, construct="clazz choice",
+           msg="a subclass instance could be bound to a base-class choice although its own class is a choice")
     fv = ctx.repo.func(f"{EL}:XmlVar.find_value_choice")
-    a = asrc(fv)
-    ctx.ob("find_value_choice dispatches None/empty -> nillable choice, models -> clazz choice, else primitive choice", A("returnself.find_nillable_choice(_)") in a and A("returnself.find_clazz_choice(type(_))") in a
-           and A("returnself.find_primitive_choice(_,_)") in a, at=fv, construct="value choice dispatch", msg="dispatch changed")
+    called = {call_name_of(c): c for c in calls_in(fv.node)}
+    ok = {"find_nillable_choice", "find_clazz_choice", "find_primitive_choice"} <= set(called) and X(fv, called["find_clazz_choice"].args[0] if called["find_clazz_choice"].args else None) == "type(_)"
+    ctx.ob("find_value_choice dispatches None/empty -> nillable choice, models -> clazz choice (by type(value)), else primitive choice", ok, at=fv, construct="value choice dispatch", msg="dispatch changed")
     bt = ctx.repo.func(f"{PAR}:DictDecoder.bind_text")
-    ctx.ob("DictDecoder.bind_text resolves compound fields through find_value_choice(value, is_model(value))", A("_=self.context.class_type.is_model(_);_=_.find_value_choice(_,_)") in asrc(bt), at=bt, construct="decoder choice lookup",
+    fvc = [c for c in calls_in(bt.node) if call_name_of(c) == "find_value_choice"]
+    ok = bool(fvc) and all(len(c.args) == 2 and X(bt, c.args[1]) == "self.context.class_type.is_model(_)" and unparse(c.args[0]) == "value" for c in fvc)
+    ctx.ob("DictDecoder.bind_text resolves compound fields through find_value_choice(value, is_model(value))", ok, at=bt, construct="decoder choice lookup",
            msg="compound values decoded against another choice than the one the encoder used")
 
 
@@ -158,17 +258,15 @@ def nillable_choice_only_for_none_or_empty_tokens(ctx: Ctx) -> None:
     """find_value_choice sends a value to the nillable-choice lookup only if it is None, or an empty token list - never because it is merely falsy."""
     fv = ctx.repo.func(f"{EL}:XmlVar.find_value_choice")
     g = build_cfg(fv.node)
-    nil = [n for n in g.stmts() if any(unparse(c.func) == "self.find_nillable_choice" for c in node_calls(n))]
-    none_t = [t for t in g.nodes if t.kind == "test" and A(unparse(t.ast)) == A("value is None")]
-    tok_t = [t for t in g.nodes if t.kind == "test" and unparse(t.ast) == "is_tokens"]
-    ok = len(nil) == 1 and len(none_t) == 1 and bool(tok_t)
+    nil = [n for n in g.stmts() if any(call_name_of(c) == "find_nillable_choice" for c in node_calls(n))]
+    none_t = [t for t in tests_like(fv, "_ is None") if any(isinstance(x, ast.Name) and x.id == "value" for x in ast.walk(t.ast))]
+    tok_t = tests_like(fv, "collections.is_array(_)")
+    ok = len(nil) == 1 and len(none_t) >= 1 and bool(tok_t)
     if ok:
-        blocked = [(none_t[0].id, m, lab) for m, lab in g.succ[none_t[0].id] if lab == "true"] + [(t.id, m, lab) for t in tok_t for m, lab in g.succ[t.id] if lab == "true"]
+        blocked = [(t.id, m, lab) for t in none_t + tok_t for m, lab in g.succ[t.id] if lab == "true"]
         ok = nil[0].id not in g.reachable([g.entry], blocked_edges=blocked)
     ctx.ob("find_value_choice: the nillable lookup is unreachable for a value that is neither None nor a token list", ok, at=fv, construct="nillable dispatch",
            msg="falsy primitives (0, 0.0, False, '') are sent to the nillable choice: JSON 0 in a compound field fails to bind or is bound to another choice")
-    tk = [st for st, tgt, v in stores(fv.node) if unparse(tgt) == "is_tokens"]
-    ctx.ob("is_tokens = collections.is_array(value)", len(tk) == 1 and A(unparse(tk[0].value)) == A("collections.is_array(value)"), at=fv, construct="is_tokens", msg="token test changed")
 
 
 @rule("C04.R8")
@@ -176,12 +274,12 @@ def derived_type_entry_takes_precedence(ctx: Ctx) -> None:
     """bind_derived_value honours the derived element's explicit `type` entry before guessing the class structurally from the field's class."""
     fi = ctx.repo.func(f"{PAR}:DictDecoder.bind_derived_value")
     g = build_cfg(fi.node)
-    xt = [t for t in g.nodes if t.kind == "test" and unparse(t.ast) == "xsi_type"]
-    guess = [n for n in g.stmts() if any(unparse(c.func) in ("self.bind_complex_type", "self.bind_best_dataclass") for c in node_calls(n))]
+    xt = tests_like(fi, "_['type']")
+    guess = [n for n in g.stmts() if any(call_name_of(c) in ("bind_complex_type", "bind_best_dataclass") for c in node_calls(n))]
     exact = [n for n in g.stmts() if any(unparse(c.func) == "self.context.find_type" for c in node_calls(n))]
-    ok = len(xt) == 1 and bool(guess) and bool(exact) and all(g.only_if(n.id, xt[0].id, False) for n in guess) and all(g.only_if(n.id, xt[0].id, True) for n in exact)
+    ok = len(xt) >= 1 and bool(guess) and bool(exact) and all(any(g.only_if(n.id, t.id, False) for t in xt) for n in guess) and all(any(g.only_if(n.id, t.id, True) for t in xt) for n in exact)
     ctx.ob("bind_derived_value: structural guessing (bind_complex_type / bind_best_dataclass) happens only when the derived element carries no type", ok, at=fi, construct="derived type precedence",
            msg="the explicit type of a DerivedElement is ignored when the field has a model class: a sibling class with a compatible key set wins and the decoded object is unequal")
-    nd = [t for t in g.nodes if t.kind == "test" and A(unparse(t.ast)) == A("isinstance(params, dict)")]
-    txt = [n for n in g.stmts() if any(unparse(c.func) == "self.bind_text" for c in node_calls(n))]
-    ctx.ob("bind_derived_value: non-dict values are bound as text before any class lookup", len(nd) == 1 and bool(txt) and all(g.only_if(n.id, nd[0].id, False) for n in txt), at=fi, construct="derived text first", msg="dispatch order changed")
+    nd = tests_like(fi, "isinstance(_['value'], dict)")
+    txt = [n for n in g.stmts() if any(call_name_of(c) == "bind_text" for c in node_calls(n))]
+    ctx.ob("bind_derived_value: non-dict values are bound as text before any class lookup", len(nd) >= 1 and bool(txt) and all(any(g.only_if(n.id, t.id, False) for t in nd) for n in txt), at=fi, construct="derived text first", msg="dispatch order changed")
